@@ -1071,6 +1071,14 @@ impl<T: Config> P2PSession<T> {
                     .try_into()
                     .expect("frames ahead is negative despite being positive."),
             });
+            self.trim_event_queue();
+        }
+    }
+
+    /// Discards the oldest events while more than `MAX_EVENT_QUEUE_SIZE` are stored.
+    fn trim_event_queue(&mut self) {
+        while self.event_queue.len() > MAX_EVENT_QUEUE_SIZE {
+            self.event_queue.pop_front();
         }
     }
 
@@ -1164,9 +1172,7 @@ impl<T: Config> P2PSession<T> {
         }
 
         // check event queue size and discard oldest events if too big
-        while self.event_queue.len() > MAX_EVENT_QUEUE_SIZE {
-            self.event_queue.pop_front();
-        }
+        self.trim_event_queue();
     }
 
     fn compare_local_checksums_against_peers(&mut self) {
@@ -1199,6 +1205,7 @@ impl<T: Config> P2PSession<T> {
                         remote.pending_checksums.remove_entry(&frame);
                     }
                 }
+                self.trim_event_queue();
             }
             DesyncDetection::Off => (),
         }
